@@ -29,6 +29,7 @@ mod zobrist;
 mod bridge;
 mod checks;
 mod e1_posgraph;
+mod e5_pure;
 mod json;
 mod report;
 mod rules;
